@@ -10,6 +10,7 @@ EXPLANATION = (
     "{WordBoundary, NotWordBoundary, Unknown}. R04.3: the text-character position is literal on both sides."
 )
 THOROUGH_CONFIGS = [C.MINIMAL, C.NO_TAG]
+QUICK_CONFIGS = [C.NO_TAG]
 NOT_DECIDED = ["equality after re-parse as a value"]
 
 WP = C.S + "::write_partial_annotation_text"
@@ -17,6 +18,16 @@ WP = C.S + "::write_partial_annotation_text"
 
 def run(chk):
     w = C.world_for(chk)
+    from . import ctors as _acc
+    _acc.accessors(chk, w, only=["vaporetto::sentence::"])
+    # tokens, their tags and both writers slice the flat tag vector with n_tags: every function that changes the tags or the tag
+    # count must leave tags.len() == n_tags * len(), and the updates must reset both (shared with C05)
+    from . import c05 as _c05
+    chk.rule("R05.1", "every Sentence field is killed on every Ok path of update_* and on every path of the reset (shared with C05)")
+    chk.rule("R05.2", "Err paths of update_* end in the full reset (shared with C05)")
+    chk.rule("R05.3", "tags length form == n_tags form * len() at every exit of a function that changes either (shared with C05)")
+    _c05.kill_rules(chk, w)
+    _c05.r053(chk, w)
     chk.rule("R04.1", "annotation-context specials of the parser are escaped by every tag-emitting site of the writer")
     chk.rule("R04.2", "label<->symbol tables are inverse bijections and both writer copies agree")
     chk.rule("R04.3", "text characters are literal in parser and writer")
